@@ -5,6 +5,7 @@ package sem
 
 import (
 	"fmt"
+	"github.com/GuanceCloud/platypus/pkg/ast"
 	"sort"
 	"strings"
 	"time"
@@ -38,7 +39,15 @@ type Case struct {
 	RaiseAtRec int
 	// NoHistory switches the second-run checks of Decide off (signal-driven cases, v1/v2 differentials).
 	NoHistory bool
-	reportAs  *Case
+	// OwnTables: every script is parsed and checked on its own, given a function table of its own (same functions,
+	// each probe function checks that it is running on behalf of the script whose table it sits in), and the set is
+	// then linked with the exported linker - what an embedder with per-script tables does.
+	OwnTables bool
+	// Mode is what pmode() returns (v2 probe table); Modes, when set, is the sequence of modes of successive runs of
+	// the one loaded script (see LoadedV2), Mode being the current one.
+	Mode     int64
+	Modes    []int64
+	reportAs *Case
 }
 
 func NewCase(prog []*gen.Node) *Case {
@@ -67,7 +76,9 @@ type Replay struct {
 	V2     bool              `json:"v2,omitempty"`
 	Note   string            `json:"note,omitempty"`
 	// Between: a case loaded and run between two runs of this case's loaded scripts.
-	Between *Replay `json:"run_between,omitempty"`
+	Between   *Replay `json:"run_between,omitempty"`
+	OwnTables bool    `json:"own_function_tables,omitempty"`
+	Modes     []int64 `json:"pmode_per_run,omitempty"`
 }
 
 func (c *Case) Replay(note string) Replay {
@@ -82,13 +93,13 @@ func (c *Case) Replay(note string) Replay {
 		for k, v := range c.Fields {
 			f[k] = probe.Render(v)
 		}
-		return Replay{Texts: c.Texts, Root: c.Root, Meas: c.Meas, Tags: c.Tags, Fields: f, V2: c.V2, Note: note, Between: &b}
+		return Replay{Texts: c.Texts, Root: c.Root, Meas: c.Meas, Tags: c.Tags, Fields: f, V2: c.V2, Note: note, Between: &b, OwnTables: c.OwnTables, Modes: c.Modes}
 	}
 	f := map[string]string{}
 	for k, v := range c.Fields {
 		f[k] = probe.Render(v)
 	}
-	return Replay{Texts: c.Texts, Root: c.Root, Meas: c.Meas, Tags: c.Tags, Fields: f, V2: c.V2, Note: note}
+	return Replay{Texts: c.Texts, Root: c.Root, Meas: c.Meas, Tags: c.Tags, Fields: f, V2: c.V2, Note: note, OwnTables: c.OwnTables, Modes: c.Modes}
 }
 
 // ImplOut is what the implementation did.
@@ -114,13 +125,40 @@ var v1call, v1check = func() (map[string]plrt.FuncCall, map[string]plrt.FuncChec
 	return impl.FuncTables(c, k)
 }()
 
+// ownTable is script owner's private copy of the function table: the probe functions record a "WRONG-FUNCTION-TABLE"
+// entry when they are reached while another script's statements run (a script runs with its own table; the task
+// reports the name of the script it runs).
+func ownTable(owner string) map[string]plrt.FuncCall {
+	t := make(map[string]plrt.FuncCall, len(v1call))
+	for n, f := range v1call {
+		t[n] = f
+	}
+	for _, n := range []string{"probe", "pval", "pvoid", "perr"} {
+		inner := v1call[n]
+		t[n] = func(ctx *plrt.Task, e *ast.CallExpr) *errchain.PlError {
+			if ctx.Name() != owner {
+				probe.Note(ctx, probe.Rec{Label: "WRONG-FUNCTION-TABLE", Vals: []string{"table of " + owner, "statements of " + ctx.Name()}})
+			}
+			return inner(ctx, e)
+		}
+	}
+	return t
+}
+
 // V1Tables exposes the function tables (builtins + probes).
 func V1Tables() (map[string]plrt.FuncCall, map[string]plrt.FuncCheck) { return v1call, v1check }
 
 // RunV1 loads all scripts together and runs the root on a fresh point.
 func RunV1(c *Case, fireAt int) ImplOut {
 	var out ImplOut
-	ok, errs, crash := impl.LoadV1(c.Texts, v1call, v1check)
+	var ok map[string]*plrt.Script
+	var errs map[string]error
+	var crash *impl.Crash
+	if c.OwnTables {
+		ok, errs, crash = impl.LoadV1Own(c.Texts, ownTable, v1check)
+	} else {
+		ok, errs, crash = impl.LoadV1(c.Texts, v1call, v1check)
+	}
 	if crash != nil {
 		out.Crash = crash
 		return out
@@ -198,7 +236,7 @@ func RunV2(c *Case, sig runtimev2.Signal) ImplOut {
 		out.LoadErrs = map[string]error{c.Root: err}
 		return out
 	}
-	out = runLoadedV2(s, sig)
+	out = runLoadedV2(c, s, sig)
 	out.Again = func(map[string]any) ImplOut {
 		var sig2 runtimev2.Signal
 		if ps, ok := sig.(*probe.Sig); ok {
@@ -206,14 +244,39 @@ func RunV2(c *Case, sig runtimev2.Signal) ImplOut {
 		} else if sig != nil {
 			sig2 = sig
 		}
-		return runLoadedV2(s, sig2)
+		return runLoadedV2(c, s, sig2)
 	}
 	return out
 }
 
-func runLoadedV2(s *runtimev2.Script, sig runtimev2.Signal) ImplOut {
+// LoadedV2 is a v2 script loaded once and run several times.
+type LoadedV2 struct {
+	s   *runtimev2.Script
+	out ImplOut // load failure
+}
+
+func LoadV2(c *Case) *LoadedV2 {
+	s, err, crash := impl.LoadV2(c.Root, c.Texts[c.Root], v2fns)
+	l := &LoadedV2{s: s}
+	if crash != nil {
+		l.out.Crash = crash
+	} else if err != nil {
+		l.out.LoadErrs = map[string]error{c.Root: err}
+	}
+	return l
+}
+
+// Run runs the loaded script once more (pmode() returns c.Mode).
+func (l *LoadedV2) Run(c *Case, sig runtimev2.Signal) ImplOut {
+	if l.s == nil || l.out.Crash != nil || l.out.LoadErrs != nil {
+		return l.out
+	}
+	return runLoadedV2(c, l.s, sig)
+}
+
+func runLoadedV2(c *Case, s *runtimev2.Script, sig runtimev2.Signal) ImplOut {
 	var out ImplOut
-	tr := &probe.Trace2{}
+	tr := &probe.Trace2{Mode: c.Mode}
 	if ps, ok := sig.(*probe.Sig); ok {
 		tr.Sig = ps
 	}
@@ -248,6 +311,7 @@ func RunModel(c *Case, opts map[string]int, extra map[string]func(*model.Interp,
 	in.Scripts = c.Scripts
 	in.File = c.Root
 	in.Extra = extra
+	in.Mode = c.Mode
 	if c.Fuel > 0 {
 		in.Fuel = c.Fuel
 	}
@@ -726,7 +790,7 @@ func ParseRendered(s string) (any, error) {
 // FromReplay rebuilds a case from its JSON form: the scripts are re-parsed with the implementation's
 // parser and converted, so the model runs on exactly the saved text.
 func FromReplay(r Replay) (*Case, error) {
-	c := &Case{Scripts: map[string][]*gen.Node{}, Root: r.Root, Texts: r.Texts, Meas: r.Meas, Tags: r.Tags, V2: r.V2, Fields: map[string]any{}}
+	c := &Case{Scripts: map[string][]*gen.Node{}, Root: r.Root, Texts: r.Texts, Meas: r.Meas, Tags: r.Tags, V2: r.V2, OwnTables: r.OwnTables, Modes: r.Modes, Fields: map[string]any{}}
 	for k, v := range r.Fields {
 		x, err := ParseRendered(v)
 		if err != nil {
